@@ -66,6 +66,9 @@ def structure_list(tier, seed):
         out.append(("unit:" + lab, at, None))
     st = families.stack_base()
     out.append(("stack", st, None))
+    top = st.positions[np.argmax(st.positions[:, 2])]
+    for lab, at in families.deviations(st, [top + [0, 0, 1.9]], kinds=("ads",)):
+        out.append(("stack:" + lab, at, lab))
     for lab, at in families.deviations(st, [], kinds=("vac", "sub")):
         if tier == "quick" and int(lab[3:]) % 3:
             continue
